@@ -27,7 +27,7 @@ func runMeasure(e *simcore.Env, tp *simcore.Tape) {
 	synctest.Test(e.T, func(*testing.T) {
 		knobDesc, knobRestore := simknobs.Draw(tp, "measure")
 		defer knobRestore()
-		e.Event("%s", knobDesc)
+		simknobs.Record(e, knobDesc)
 		s := wl.GenMeasureSchema(tp, wl.SchemaOpts{})
 		repo := simmeta.New()
 		s.Install(repo)
@@ -160,7 +160,7 @@ func runStream(e *simcore.Env, tp *simcore.Tape) {
 	synctest.Test(e.T, func(*testing.T) {
 		knobDesc, knobRestore := simknobs.Draw(tp, "stream")
 		defer knobRestore()
-		e.Event("%s", knobDesc)
+		simknobs.Record(e, knobDesc)
 		s := wl.GenStreamSchema(tp, wl.SchemaOpts{})
 		repo := simmeta.New()
 		s.Install(repo)
